@@ -45,10 +45,29 @@ import (
 // GetConnectionID), so enumeration does not depend on the id generator.
 type c07Pipe struct {
 	*vk.BufConn
-	id string
+	id   string
+	gate atomic.Pointer[c07Gate]
 }
 
 func (p *c07Pipe) GetConnectionID() string { return p.id }
+
+// c07Gate holds back the server's writes on one transport: while armed, a Write parks until
+// release is closed and then reports success even if the server closed the transport in the
+// meantime (the bytes had already been handed to the kernel when the socket was closed).
+type c07Gate struct {
+	armed   atomic.Bool
+	inWrite atomic.Int32
+	release chan struct{}
+}
+
+func (p *c07Pipe) Write(b []byte) (int, error) {
+	if g := p.gate.Load(); g != nil && g.armed.Load() {
+		g.inWrite.Add(1)
+		<-g.release
+		return len(b), nil
+	}
+	return p.BufConn.Write(b)
+}
 
 // c07Auth authenticates a handshake as req.ClientID iff Token == "ok".
 type c07Auth struct{}
@@ -128,6 +147,7 @@ type c07Conn struct {
 	shared  atomic.Bool  // another harness connection carries the same connection id (id reuse)
 	ctlAs   atomic.Int64 // identity of its latest successful authentication if that was a control-type handshake, else 0
 	stream  interface{}  // the stream AcceptConnection returned (stream.PackageStreamer)
+	pipe    *c07Pipe     // the server-side transport object
 }
 
 func (c *c07Conn) dead() (bool, string) {
@@ -259,7 +279,7 @@ func (w *c07World) accept(slot int) *c07Conn {
 		peer.Close()
 		return nil
 	}
-	c := &c07Conn{slot: slot, connID: id, srv: srv, peer: peer, stream: sc.Stream}
+	c := &c07Conn{slot: slot, connID: id, srv: srv, peer: peer, stream: sc.Stream, pipe: p}
 	w.mu.Lock()
 	w.slots[slot] = c
 	w.all[id] = c
@@ -592,6 +612,11 @@ func (w *c07World) apply(op c07Op) bool {
 		// leaves packet mode, so a second registration under the same connection id cannot happen)
 		first := !c.tunnel.Swap(true)
 		sm.clientRegistry.Unregister(c.connID)
+		// a connection converted to a tunnel is no control connection any more: no control lookup
+		// returns it (only its owner could register it again, and the owner is here)
+		if !c.shared.Load() && sm.GetControlConnection(c.connID) != nil {
+			w.run.Violation("C07:converted-conn-still-registered|op=unreg", map[string]any{"conn": c.connID, "trace": w.tail(), "registered_as_client": reg.ClientID, "authenticated": reg.Authenticated, "index_holder": sm.GetControlConnectionByClientID(reg.ClientID).GetConnID()})
+		}
 		if _, ok := sm.GetConnection(c.connID); ok && first {
 			tc := NewTunnelConnection(c.connID, c.stream.(stream.PackageStreamer), c.srv.RemoteAddr(), "tcp")
 			sm.RegisterTunnelConnection(tc)
